@@ -16,6 +16,7 @@ EXPLANATION = ("Exhaustive decision table of the three private component checks 
                "abstracted to the set of states present; phase-order query on the enumerated loop paths; traversal completeness "
                "of BaseProduct.check_state.")
 ASSUMPTIONS = ["task states only advance and FINISHED is absorbing (C01 R1.1), hence components never leave FINISHED"]
+EXHAUSTIVE = True  # the deciding tables range over the complete finite domain
 TECHNIQUE = "exhaustive finite-domain decision table by abstract interpretation + must-pass-through on loop paths"
 
 
